@@ -17,6 +17,32 @@ pub struct TryJoinAll<F: TryFuture> {
 
 impl<F: TryFuture> Unpin for TryJoinAll<F> {}
 
+impl<F: TryFuture> TryJoinAll<F> {
+    /// Drops every output written so far and every future still in flight.
+    fn release(&mut self) {
+        // Output `i` has been written exactly when future `i` has left the queue: `poll` writes the
+        // output before it releases the future, and a failed future is still in its slot when this is
+        // called. Take the buffer first, so that nothing can be released twice should one of the
+        // destructors below panic.
+        let mut output = core::mem::replace(&mut self.output, Vec::new().into_boxed_slice());
+        for (i, out) in output.iter_mut().enumerate() {
+            if self.queue.tasks.get(i).is_none() {
+                // SAFETY: see above, this entry is initialised and is dropped only here
+                unsafe { out.assume_init_drop() };
+            }
+        }
+        for i in 0..self.queue.capacity() {
+            self.queue.tasks.remove(i);
+        }
+    }
+}
+
+impl<F: TryFuture> Drop for TryJoinAll<F> {
+    fn drop(&mut self) {
+        self.release();
+    }
+}
+
 /// Creates a future which represents a collection of the outputs of the futures
 /// given.
 ///
@@ -71,11 +97,18 @@ impl<F: TryFuture> Future for TryJoinAll<F> {
 
     fn poll(mut self: Pin<&mut Self>, cx: &mut Context<'_>) -> Poll<Self::Output> {
         loop {
-            match self.as_mut().queue.poll_inner(cx) {
+            match self.as_mut().queue.poll_inner_no_remove(cx, F::poll) {
                 Poll::Ready(Some((i, Ok(t)))) => {
+                    // write the output before the future is released: a vacant slot always means
+                    // "output written", also if the destructor of the future panics
                     self.output[i].write(t);
+                    self.queue.tasks.remove(i);
                 }
                 Poll::Ready(Some((_, Err(e)))) => {
+                    // nothing will be returned but the error: release the outputs collected so far and
+                    // cancel the remaining futures (the failed one included), so that a later poll
+                    // cannot mistake the drained queue for a completely written buffer
+                    self.release();
                     break Poll::Ready(Err(e));
                 }
                 Poll::Ready(None) => {
